@@ -46,6 +46,7 @@ func init() {
 			if m.Selected {
 				c.Call.Names = genNames(t, c.Rules, 20)
 			}
+			genPrior(t, c)
 			return c
 		},
 		Check: func(ci interface{}, x *Ctx) {
